@@ -417,7 +417,11 @@ func (s *Seq) runBlock(txOps []*Op, H uint64) {
 			op.Result = "rejected"
 			r.Count("rejected_"+op.Kind, 1)
 		}
-		r.Count("class_"+op.Kind+"_"+lastClass(op.Class)+"_"+op.Result, 1)
+		for _, lbl := range strings.Split(op.Class, ",") {
+			if lbl != "" {
+				r.Count("class_"+op.Kind+"_"+lbl+"_"+op.Result, 1)
+			}
+		}
 		feeBy[k.Addr]++
 	}
 	s.noteValidators()
@@ -474,13 +478,6 @@ func (s *Seq) resync(v *View) {
 	}
 	s.noteValidators()
 	s.const0 = v.conserved()
-}
-
-func lastClass(c string) string {
-	if i := strings.LastIndex(c, ","); i >= 0 {
-		return c[i+1:]
-	}
-	return c
 }
 
 // judge: every clause of the property on the committed state after a block.
